@@ -178,6 +178,9 @@ def _work(spec):
     faulthandler.dump_traceback_later(3600, exit=True)
     chk = load_check(pid)
     chk.worker_init()
+    prep = getattr(chk, "worker_prepare", None)
+    if prep is not None:
+        prep(verif_seed, arm)  # per-batch material a check wants computed once per worker (in a pristine child of its own: the worker stays pristine)
     kf = known.load()
     agg = Agg()
     per_class = Counter()
